@@ -27,14 +27,14 @@ NEEDS_READER = True  # attached C06 clauses read the netlisters' conventions
 
 
 def check(repo: Repo, R) -> None:
-    cache_discipline(repo, R)
-    readable_names(repo, R)
-    hashed_names(repo, R)
-    no_foreign_rename(repo, R)
+    R.run(cache_discipline, repo, R)
+    R.run(readable_names, repo, R)
+    R.run(hashed_names, repo, R)
+    R.run(no_foreign_rename, repo, R)
     from . import c12, c06
-    c12.check(repo, shared.Retag(R, lambda r, k: "C09.3-hashed-names-process-independent" if r.startswith("C12.3") and ("_unique_name" in k or "naming_encoder" in k) else None,
+    R.run(c12.check, repo, shared.Retag(R, lambda r, k: "C09.3-hashed-names-process-independent" if r.startswith("C12.3") and ("_unique_name" in k or "naming_encoder" in k) else None,
                                  "the name of a generated module depends on something other than the parameter values (an address, a salted hash): equal parameters give different names"))
-    c06.check(repo, shared.Retag(R, lambda r, k: "C09.5-distinct-modules-distinct-names" if r.startswith("C06.2") and k.endswith("export_module_name") else None,
+    R.run(c06.check, repo, shared.Retag(R, lambda r, k: "C09.5-distinct-modules-distinct-names" if r.startswith("C06.2") and k.endswith("export_module_name") else None,
                                  "two different generated modules that share a qualified name are exported as one name defined twice, instead of being refused"))
     R.floor("C09.1-cache-discipline", 5)
     R.floor("C09.2-readable-names-injective", 2)
